@@ -993,6 +993,29 @@ pub fn generate(s: &mut Session, thorough: bool) -> bool {
         s.push_oracle("clusterx-degenerate", req, imp, why);
     }
 
+    // chains whose links have length exactly `max_distance` (same r, phi; z = k * max): one
+    // cluster with `<=`, singletons with `<`
+    for i in 0..(if thorough { 400 } else { 60 }) {
+        let maxd = *rng.pick(&[0.03125, 0.25, 0.03, 0.0078125]);
+        let n = rng.range(2, 30) as usize;
+        let (r, phi) = (RC + 0.08 * rng.f64_unit(), (rng.f64_unit() * 2.0 - 1.0) * PI);
+        let mut pts: Vec<SpacePoint> = (0..n).map(|k| sp(r, phi, k as f64 * maxd)).collect();
+        if maxd == 0.03 {
+            // only 0 -> 0.03 is an exact link in binary; keep pairs
+            pts = vec![sp(r, phi, 0.0), sp(r, phi, 0.03), sp(r, phi, 1.0), sp(r, phi, 1.03)];
+        }
+        if rng.bool() {
+            rng.shuffle(&mut pts);
+        }
+        let cfg = if i % 2 == 0 {
+            Config { min: 2, rho_bins: 250, theta_bins: 230, max_distance: maxd }
+        } else {
+            Config { min: *rng.pick(&[1usize, 2, 3]), rho_bins: *rng.pick(&[5u32, 25]), theta_bins: *rng.pick(&[4u32, 23]), max_distance: maxd }
+        };
+        let (req, imp, why) = run_clusterx("clusterx", &pts, cfg);
+        s.push_oracle("clusterx-threshold", req, imp, why);
+    }
+
     // clouds with a NaN coordinate (outside C15's quantifier: `p == p` is false and the real
     // `remove_unchecked` panics when such a point is in a best cluster): the model must panic
     // exactly when the implementation does; no oracle verdict.
